@@ -44,6 +44,13 @@ pub(crate) fn minimal_zalsa() -> Zalsa {
     }
 }
 
+/// Re-assign the structural fields of an ingredient-free `Zalsa` (see `storage::verif::storage_around`).
+pub(crate) fn restate_empty(z: &mut Zalsa) {
+    std::mem::forget(std::mem::replace(&mut z.ingredients_requiring_reset, Vec::new()));
+    std::mem::forget(std::mem::replace(&mut z.ingredients_vec, Vec::new()));
+    std::mem::forget(std::mem::replace(&mut z.event_callback, None));
+}
+
 /// A minimal `Zalsa` whose runtime is in an arbitrary state satisfying the revision invariant.
 pub(crate) fn any_zalsa() -> (Zalsa, [usize; 3]) {
     let mut z = minimal_zalsa();
